@@ -271,3 +271,18 @@ class Snapshot:
                 st, de, na = was
                 same = o.structure is st and o.name is na and (o.density is de or (de is not None and o.density is not None and not isinstance(de, SymReal) and o.density == de))
                 E.fact('%s.argument_unchanged[%s]' % (prefix, name), same, note='%r %r' % (o.structure is st, o.density))
+
+
+def fresh_interpreter(code, timeout=180):
+    """Run a snippet in a new Python process that sees the same periodictable (same interpreter, same PYTHONPATH):
+    returns the object it printed as JSON on its last line.  Used for the few claims that depend on what is touched
+    FIRST in a process (lazily loaded property groups)."""
+    import json, subprocess, sys
+    r = subprocess.run([sys.executable, '-c', code], capture_output=True, text=True, timeout=timeout)
+    lines = [l for l in r.stdout.strip().split('\n') if l.strip()]
+    if r.returncode != 0 or not lines:
+        return dict(error=(r.stderr or r.stdout)[-400:])
+    try:
+        return json.loads(lines[-1])
+    except ValueError:
+        return dict(error='unreadable output: %r' % lines[-1][:200])
